@@ -29,7 +29,7 @@ def mk_cfg(ctx, variant="main"):
         # objects built while /proc/<pid>/stat was unreadable (creation time unknown), permission restored later: whatever
         # psutil decides about their equality, a mere query (create_time(), is_running() ...) must not change it afterwards
         return pm.Cfg(seed=ctx.seed, slots=("A",), max_objs=2, actions=(), clock=False, queries=("name",), numeric=True,
-                      use_iter=False, use_exit=False, max_denies=1, create_time_event=True)
+                      use_iter=False, use_exit=False, max_denies=1, create_time_event=True, lazy_hash=True)
     return pm.Cfg(seed=ctx.seed, slots=("A",), max_objs=3 if ctx.thorough else 2, actions=("sig65",), clock=True,
                   queries=(), numeric=True, use_iter=True, use_exit=ctx.thorough, oneshot=True,
                   sys_calls=pm.SYS_CALLS if ctx.thorough else pm.SYS_CALLS[:1],
